@@ -49,6 +49,22 @@ class Extracted:
         self.relsplit_guarded = self._relsplit_guarded()
         self._check_translate_numerals()
         self._check_simplify()
+        self.default_skip_tokens = self._default_skip_tokens()
+
+    def _default_skip_tokens(self):
+        """the default SKIP_TOKENS, if Dictionary.__getitem__ consults them before the locale's own vocabulary (it answers None - the
+        word is dropped - for such a token whatever the vocabulary says)"""
+        f = self.ctx.ix.func("dateparser.languages.dictionary:Dictionary.__getitem__")
+        first = [n for n in f.node.body if not (isinstance(n, ast.Expr) and isinstance(n.value, ast.Constant))]
+        shadow = bool(first) and isinstance(first[0], ast.If) and "SKIP_TOKENS" in ast.unparse(first[0].test) \
+            and any(isinstance(x, ast.Return) and (x.value is None or (isinstance(x.value, ast.Constant) and x.value.value is None)) for x in first[0].body)
+        if not shadow:
+            return []
+        dflt = module_literal(self.ctx.repo, "dateparser_data/settings.py", "settings")
+        toks = dflt.get("SKIP_TOKENS")
+        if not isinstance(toks, list) or not all(isinstance(t, str) for t in toks):
+            raise AnalysisError(RULE, "default SKIP_TOKENS is not a list of strings")
+        return toks
 
     def _dict_const(self, name):
         from ..core.data import eval_literal
